@@ -53,6 +53,9 @@ func NewCtx(p *load.Program, r *Rule) *Ctx {
 	return &Ctx{Prog: p, rule: r, Stats: map[string]int{}}
 }
 
+// Fork returns an empty context for the same program and rule (used to judge alternatives before committing to one).
+func (c *Ctx) Fork() *Ctx { return NewCtx(c.Prog, c.rule) }
+
 func (c *Ctx) add(v Verdict, construct string, pos token.Pos, format string, args ...any) {
 	c.Obs = append(c.Obs, Obligation{
 		Rule: c.rule.ID, Construct: construct, Pos: c.Prog.Rel(pos), Verdict: v,
